@@ -464,8 +464,13 @@ pub fn earley_tie(world: &World, g: &Gram, sigma: &[u8], seed: u64, tag: usize, 
                 for i in 0..is_skip.len() { cidx[i + 1] = cidx[i] + if is_skip[i] { 0 } else { 1 }; }
                 let lexs: Vec<String> = st.row_lexemes.iter().zip(is_skip.iter()).filter(|(_, sk)| !**sk).map(|(l, _)| csv(l.iter())).collect();
                 let mut rows: Vec<String> = vec![];
+                let mut allowed: Vec<String> = vec![];
                 for i in 0..st.rows.len() {
                     if i > 0 && is_skip[i - 1] { continue; }
+                    // lexemes possible in the lexer start state of the row (what the parser allows next), skip lexemes aside
+                    let mut al: Vec<u32> = st.row_allowed.get(i).cloned().unwrap_or_default().into_iter().filter(|l| !cg.skips.contains(l)).collect();
+                    al.sort(); al.dedup();
+                    allowed.push(csv(al.iter()));
                     let mut items: Vec<(u32, usize)> = st.rows[i].iter().map(|(p, s)| (*p, cidx[*s as usize])).collect();
                     items.sort(); items.dedup();
                     rows.push(if items.is_empty() { "-".to_string() } else { items.iter().map(|(p, s)| format!("{p}:{s}")).collect::<Vec<_>>().join(",") });
@@ -473,7 +478,10 @@ pub fn earley_tie(world: &World, g: &Gram, sigma: &[u8], seed: u64, tag: usize, 
                 rep.count("earley.states");
                 rep.count_n("earley.rows", rows.len() as u64);
                 if is_skip.iter().any(|x| *x) { rep.count("earley.states-with-skip-lexeme"); }
-                mb.push(format!("ey rows {id} {}", if lexs.is_empty() { "-".to_string() } else { lexs.join("|") }), format!("ok {} acc=?", rows.join(";")), tag);
+                mb.push(format!("ey rows {id} {}", if lexs.is_empty() { "-".to_string() } else { lexs.join("|") }), format!("ok {} acc={} al={}", rows.join(";"),
+                    // with no lexeme open, the engine accepts exactly when the last row does
+                    if st.has_pending_lexeme_bytes { "?" } else if m.deep_clone().is_accepting().unwrap_or(false) { "1" } else { "0" },
+                    allowed.join(";")), tag);
             }
             let Ok(mask) = m.compute_mask() else { break };
             let allowed: Vec<u32> = if sigma.is_empty() { mask.to_list().into_iter().filter(|t| *t < 256).collect() } else { sigma.iter().map(|b| *b as u32).filter(|b| mask.is_allowed(*b)).collect() };
